@@ -138,6 +138,7 @@ func runC06(c *Ctx, r *Report) {
 	c06Strings(c, r)
 	// ---- R4 arrays ----------------------------------------------------------------------------------
 	if fd := c.decl(c.fn(c.fit, "encoder.writeField")); fd != nil {
+		c.inlineTypeAccessorLocals(fd)
 		okInv := false
 		ast.Inspect(fd.Body, func(n ast.Node) bool {
 			if as, ok := n.(*ast.AssignStmt); ok && len(as.Lhs) == 1 && len(as.Rhs) == 1 && exprStr(as.Lhs[0]) == "invalid" && strings.ReplaceAll(exprStr(as.Rhs[0]), " ", "") == "f.t.BaseType().Invalid()" {
